@@ -1,7 +1,7 @@
 // C10 — priorities order execution; the first failing rule ends a trigger sequence.
 //
 // Domain: rule sets (1..8 rules over 4 triggering event kinds, priorities 0..5
-// with ties, failure flags) whose Go actions add 0..4 child events through
+// with ties, failure flags) whose Go actions add 0..4 (rarely 5..6) child events through
 // m.NewChildMonitor(prio) + p.AddEvent (kinds without a rule are non-triggering
 // => skipped), 1..3 root cascades started concurrently with AddEventAndWait,
 // workers 1 and 2..8, both fail-on-first-error settings.
@@ -48,12 +48,13 @@ import (
 	"verif/internal/hx"
 )
 
-const rule = "case = (rule set: 1..8 rules over event kinds k0..k3 with priorities 0..5 (ties included), failure flags and 0..4 child events per action with monitor priorities 0..5 and kinds of a deeper level (kinds without a rule are non-triggering => skipped children); 1..3 root cascades started concurrently; workers 1 or 2..8; fail-on-first-error on/off); generated with rapid plus a fixed list of directed shapes; non-trivial = a processed event triggered >= 2 rules of different priority, or some dequeue found >= 2 events of different priority queued for its cascade, or one event added a skipped child next to a triggering one; distinct by (rule set incl. cascade shape, root kinds, workers, fail-on-first-error)"
+const rule = "case = (rule set: 1..8 rules over event kinds k0..k3 with priorities 0..5 (ties included), failure flags and 0..4 (rarely 5..6) child events per action with monitor priorities 0..5 and kinds of a deeper level (kinds without a rule are non-triggering => skipped children); 1..3 root cascades started concurrently; workers 1 or 2..8; fail-on-first-error on/off); generated with rapid plus a fixed list of directed shapes; non-trivial = a processed event triggered >= 2 rules of different priority, or some dequeue found >= 2 events of different priority queued for its cascade, or one event added a skipped child next to a triggering one; distinct by (rule set incl. cascade shape, root kinds, workers, fail-on-first-error)"
 
 const (
 	nKinds     = 6  // k0..k5; rules only on k0..k3, so k4/k5 never trigger
 	nRuleKinds = 4  //
 	maxPrio    = 5  //
+	maxAdds    = 6  // events added by one action
 	maxEvents  = 64 // cap on the number of events (incl. skipped ones) of one case
 	waitBound  = 30 * time.Second
 )
@@ -110,7 +111,7 @@ func normalise(c Case) (Case, string) {
 		return n, "invalid.rule-count"
 	}
 	for _, r := range c.Rules {
-		if r.Kind < 0 || r.Kind >= nRuleKinds || r.Prio < 0 || r.Prio > maxPrio || len(r.Adds) > 6 {
+		if r.Kind < 0 || r.Kind >= nRuleKinds || r.Prio < 0 || r.Prio > maxPrio || len(r.Adds) > maxAdds {
 			return n, "invalid.rule"
 		}
 		nr := RuleSpec{Kind: r.Kind, Prio: r.Prio, Fail: r.Fail, Spin: r.Spin}
@@ -182,12 +183,19 @@ func size(c Case) int {
 // recording
 
 type addRec struct {
-	path    string
-	kind    int
-	prio    int
-	monID   uint64
-	skipped bool // AddEvent returned a nil monitor
-	err     error
+	path     string
+	kind     int
+	prio     int
+	monID    uint64
+	skipped  bool // AddEvent returned a nil monitor
+	err      error
+	pre, end int64 // stamps around NewChildMonitor + AddEvent (the activation lies in between)
+}
+
+// hpSample is one HighestPriority() reading with stamps taken before and after it.
+type hpSample struct {
+	t0, t1 int64
+	v      int
 }
 
 type actRec struct {
@@ -198,7 +206,7 @@ type actRec struct {
 	rootID     uint64
 	tid        uint64
 	start, end int64
-	hp         []int // HighestPriority(): [0] at the start, [j+1] after add j
+	hp         []hpSample // HighestPriority(): [0] at the start, [j+1] after add j
 	adds       []addRec
 }
 
@@ -210,11 +218,12 @@ type traceRec struct {
 }
 
 type recorder struct {
-	mu    sync.Mutex
-	acts  []*actRec
-	trace []traceRec
-	panic *hx.Failure
-	clock int64
+	mu     sync.Mutex
+	acts   []*actRec
+	trace  []traceRec
+	finish map[uint64]int64 // monitor id -> stamp taken inside the root monitor's lock when it finished
+	panic  *hx.Failure
+	clock  int64
 }
 
 func (r *recorder) stamp() int64 { return atomic.AddInt64(&r.clock, 1) }
@@ -267,7 +276,7 @@ type observation struct {
 }
 
 func execute(c Case) (*observation, *hx.Failure, bool) {
-	rec := &recorder{}
+	rec := &recorder{finish: map[uint64]int64{}}
 	obs := &observation{rec: rec}
 
 	proc := engine.NewProcessor(c.Workers)
@@ -297,14 +306,20 @@ func execute(c Case) (*observation, *hx.Failure, bool) {
 			}
 			rm := m.RootMonitor()
 			a.rootID = rm.ID()
-			a.hp = append(a.hp, rm.HighestPriority())
+			sample := func() {
+				t0 := rec.stamp()
+				v := rm.HighestPriority()
+				a.hp = append(a.hp, hpSample{t0, rec.stamp(), v})
+			}
+			sample()
 			for j, ad := range spec.Adds {
+				pre := rec.stamp()
 				cm := m.NewChildMonitor(ad.Prio)
 				cp := fmt.Sprintf("%s/%d.%d", a.path, i, j)
 				ce := engine.NewEvent(eventName(ad.Kind), kindPath(ad.Kind), map[interface{}]interface{}{"id": cp})
 				res, aerr := p.AddEvent(ce, cm)
-				a.adds = append(a.adds, addRec{path: cp, kind: ad.Kind, prio: ad.Prio, monID: cm.ID(), skipped: res == nil, err: aerr})
-				a.hp = append(a.hp, rm.HighestPriority())
+				a.adds = append(a.adds, addRec{path: cp, kind: ad.Kind, prio: ad.Prio, monID: cm.ID(), skipped: res == nil, err: aerr, pre: pre, end: rec.stamp()})
+				sample()
 			}
 			a.end = rec.stamp()
 			rec.mu.Lock()
@@ -338,16 +353,25 @@ func execute(c Case) (*observation, *hx.Failure, bool) {
 	// linearisation of the queue operations. Root ids are process-wide unique, so
 	// operations of kick events (own root monitors) are dropped here.
 	verifhook.SetHandler(func(point string, args ...interface{}) {
-		if point != "tq.push" && point != "tq.pop" {
-			return
+		switch point {
+		case "tq.push", "tq.pop":
+			root := args[0].(uint64)
+			if _, ok := rootIdx[root]; !ok {
+				return
+			}
+			rec.mu.Lock()
+			rec.trace = append(rec.trace, traceRec{pop: point == "tq.pop", root: root, prio: args[1].(int), mon: args[2].(uint64)})
+			rec.mu.Unlock()
+		case "monitor.finished.locked":
+			// called inside the root monitor's lock, before the counters change
+			if _, ok := rootIdx[args[0].(uint64)]; !ok {
+				return
+			}
+			t := rec.stamp()
+			rec.mu.Lock()
+			rec.finish[args[1].(uint64)] = t
+			rec.mu.Unlock()
 		}
-		root := args[0].(uint64)
-		if _, ok := rootIdx[root]; !ok {
-			return
-		}
-		rec.mu.Lock()
-		rec.trace = append(rec.trace, traceRec{pop: point == "tq.pop", root: root, prio: args[1].(int), mon: args[2].(uint64)})
-		rec.mu.Unlock()
 	})
 	defer verifhook.SetHandler(nil)
 
@@ -459,7 +483,8 @@ type eventInfo struct {
 	triggered bool      // expected to trigger (kind has rules)
 	skipped   bool      // observed: AddEvent returned nil
 	acts      []*actRec // executed rules in start order
-	addedAt   int64     // end stamp of the adding action (0 for roots)
+	actPre    int64     // activation window: stamps around the AddEvent call (0,0 for roots:
+	actEnd    int64     // a root is activated before its event is queued)
 }
 
 func prios(c Case, idx []int) string {
@@ -549,7 +574,7 @@ func evaluate(c Case, obs *observation) (fail *hx.Failure, nontrivial bool, clas
 	for _, a := range acts {
 		for _, ad := range a.adds {
 			e := &eventInfo{path: ad.path, cascade: cascadeOf(ad.path), kind: ad.kind, prio: ad.prio, monID: ad.monID,
-				triggered: len(by[ad.kind]) > 0, skipped: ad.skipped, addedAt: a.end}
+				triggered: len(by[ad.kind]) > 0, skipped: ad.skipped, actPre: ad.pre, actEnd: ad.end}
 			if _, dup := events[e.path]; dup {
 				// the same (event, rule) ran twice: reported below as a duplicate execution
 				continue
@@ -909,17 +934,17 @@ func evaluate(c Case, obs *observation) (fail *hx.Failure, nontrivial bool, clas
 							want = p
 						}
 					}
-					if a.hp[k] != want {
+					if a.hp[k].v != want {
 						var as []string
 						for p, pr := range active {
 							as = append(as, fmt.Sprintf("%s(p%d)", p, pr))
 						}
 						sort.Strings(as)
 						sig := "highest-priority"
-						if a.hp[k] == -1 {
+						if a.hp[k].v == -1 {
 							sig = "highest-priority:-1-while-active"
 						}
-						return hx.Failf(sig, "one worker, cascade c%d, inside %s of event %s %s: HighestPriority() = %d; activated unfinished monitors %v => expected %d", ci, ruleName(a.ruleIdx), a.path, what, a.hp[k], as, want)
+						return hx.Failf(sig, "one worker, cascade c%d, inside %s of event %s %s: HighestPriority() = %d; activated unfinished monitors %v => expected %d", ci, ruleName(a.ruleIdx), a.path, what, a.hp[k].v, as, want)
 					}
 					return nil
 				}
@@ -940,17 +965,55 @@ func evaluate(c Case, obs *observation) (fail *hx.Failure, nontrivial bool, clas
 			}
 		}
 		cl["hp.exact"] = true
-	} else {
-		for _, a := range acts {
-			for k, hp := range a.hp {
+	}
+	// Any number of workers: bracket every sample. The finish stamps are taken
+	// inside the root monitor's lock (hook monitor.finished.locked) and
+	// HighestPriority() takes the same lock, so relative to a reading with stamps
+	// [t0,t1] a monitor is certainly counted if its activation was complete before
+	// t0 and its finish stamp is later than t1, and possibly counted if its
+	// activation began before t1 and its finish stamp is later than t0.
+	perCascade := make([][]*eventInfo, len(c.Roots))
+	for _, p := range paths {
+		if e := events[p]; !e.skipped && e.cascade >= 0 && e.cascade < len(c.Roots) {
+			perCascade[e.cascade] = append(perCascade[e.cascade], e)
+		}
+	}
+	for _, a := range acts {
+		ci := cascadeOf(a.path)
+		for k, smp := range a.hp {
+			if c.Workers > 1 {
 				nSamples++
-				if hp < 0 || hp > a.monPrio {
-					sig := "highest-priority:bound"
-					if hp == -1 {
-						sig = "highest-priority:-1-while-active"
+			}
+			lo, hi := -1, -1 // lo: minimum over the possibly counted, hi: over the certainly counted
+			var certain, possible []string
+			for _, e := range perCascade[ci] {
+				fin, done := rec.finish[e.monID]
+				if e.actPre < smp.t1 && (!done || fin > smp.t0) {
+					if lo < 0 || e.prio < lo {
+						lo = e.prio
 					}
-					return hx.Failf(sig, "workers %d, inside %s of event %s (its monitor has priority %d and is active), sample %d: HighestPriority() = %d; expected a value in [0,%d]", c.Workers, ruleName(a.ruleIdx), a.path, a.monPrio, k, hp, a.monPrio), false, nil
+					possible = append(possible, fmt.Sprintf("%s(p%d)", e.path, e.prio))
 				}
+				if e.actEnd < smp.t0 && (!done || fin > smp.t1) {
+					if hi < 0 || e.prio < hi {
+						hi = e.prio
+					}
+					certain = append(certain, fmt.Sprintf("%s(p%d)", e.path, e.prio))
+				}
+			}
+			if hi < 0 {
+				// the running event itself is always certainly counted
+				return hx.Failf("harness:bracket", "no certainly active monitor for a sample inside %s of %s", ruleName(a.ruleIdx), a.path), false, nil
+			}
+			if smp.v < lo || smp.v > hi {
+				sig := "highest-priority:bracket"
+				if smp.v == -1 {
+					sig = "highest-priority:-1-while-active"
+				}
+				return hx.Failf(sig, "workers %d, cascade c%d, inside %s of event %s, sample %d: HighestPriority() = %d; monitors certainly activated and unfinished at that moment %v, possibly %v => expected a value in [%d,%d]", c.Workers, ci, ruleName(a.ruleIdx), a.path, k, smp.v, certain, possible, lo, hi), false, nil
+			}
+			if lo != hi {
+				cl["hp.bracket-open"] = true
 			}
 		}
 	}
@@ -1049,8 +1112,116 @@ func TestExhaustive(t *testing.T) {
 		return f
 	})
 	hx.E.Exhaustive("directed", map[string]interface{}{"cases": len(cases), "what": "6 fixed cascade shapes (skipped child next to the running root; skipped next to triggering siblings; failing middle rule which adds an event; descending priorities with ties; six priorities active at once; three cascades) x workers {1,4} x fail-on-first-error {off,on}"})
+	if violated {
+		return
+	}
+
+	// Two-level cascades with one worker, enumerated completely: the root event
+	// adds one child with priority a; that child adds the events b1..bn (all
+	// triggering, leaves); every sequence of finish / activate operations on
+	// the priority bookkeeping which such a cascade can produce is covered, and
+	// every dequeue decision over the queued b's.
+	maxRep, maxDistinct := 4, 6
+	if hx.Thorough() {
+		maxRep = 6
+	}
+	n := hx.Enumerate(t, "two-level", func(yield func(Case) bool) {
+		for a := 0; a <= maxPrio; a++ {
+			b := []int{}
+			var rec func() bool
+			rec = func() bool {
+				distinct := true
+				seen := map[int]bool{}
+				for _, p := range b {
+					if seen[p] {
+						distinct = false
+					}
+					seen[p] = true
+				}
+				if len(b) <= maxRep || (distinct && len(b) <= maxDistinct) {
+					c := Case{Workers: 1, Roots: []int{0}, Rules: []RuleSpec{
+						{Kind: 0, Prio: 0, Adds: []Add{{Kind: 1, Prio: a}}},
+						{Kind: 1, Prio: 0},
+						{Kind: 2, Prio: 0},
+					}}
+					for _, p := range b {
+						c.Rules[1].Adds = append(c.Rules[1].Adds, Add{Kind: 2, Prio: p})
+					}
+					if !yield(c) {
+						return false
+					}
+				}
+				if len(b) >= maxDistinct || (!distinct && len(b) >= maxRep) {
+					return true
+				}
+				for p := 0; p <= maxPrio; p++ {
+					b = append(b, p)
+					if !rec() {
+						return false
+					}
+					b = b[:len(b)-1]
+				}
+				return true
+			}
+			if !rec() {
+				return
+			}
+		}
+	}, func(c Case) *hx.Failure {
+		f := runCase(c)
+		violated = violated || f != nil
+		return f
+	})
+	_ = n
+	hx.E.Exhaustive("two-level", map[string]interface{}{"workers": 1, "child_priority": "0..5", "grandchildren": fmt.Sprintf("every priority sequence over 0..5 up to length %d, and every sequence of pairwise different priorities up to length %d", maxRep, maxDistinct)})
 	failInconclusive(t)
 }
+
+// The generator draws self-contained rule records (rapid can delete a whole
+// rule or a whole add while shrinking) and resolves the references between
+// them (which deeper kinds have a rule) afterwards.
+type addDraw struct {
+	Prio int // priority, or index into the unused priorities if the rule spreads
+	Trig int // < 3: a deeper kind which has a rule (if any); 3: a kind without a rule
+	Pick int // which of the candidate kinds
+}
+
+type ruleDraw struct {
+	Kind   int
+	Prio   int
+	Fail   bool
+	Spin   int
+	Spread bool // the children of this action get pairwise different priorities
+	Adds   []addDraw
+}
+
+var genAdd = rapid.Custom(func(t *rapid.T) addDraw {
+	return addDraw{
+		Prio: rapid.IntRange(0, maxPrio).Draw(t, "aprio"),
+		Trig: rapid.IntRange(0, 3).Draw(t, "atrig"),
+		Pick: rapid.IntRange(0, 5).Draw(t, "apick"),
+	}
+})
+
+var genRule = rapid.Custom(func(t *rapid.T) ruleDraw {
+	r := ruleDraw{
+		Kind:   rapid.IntRange(0, nRuleKinds-1).Draw(t, "kind"),
+		Prio:   rapid.IntRange(0, maxPrio).Draw(t, "prio"),
+		Fail:   rapid.IntRange(0, 3).Draw(t, "fail") == 3,
+		Spin:   rapid.IntRange(0, 2).Draw(t, "spin"),
+		Spread: rapid.IntRange(0, 1).Draw(t, "spread") == 1,
+	}
+	lo, hi := 0, 4
+	switch rapid.IntRange(0, 9).Draw(t, "shape") {
+	case 8, 9: // wide fan
+		lo, hi = 5, maxAdds
+	case 7: // may be a leaf
+	default:
+		lo = 1
+	}
+	r.Adds = rapid.SliceOfN(genAdd, lo, hi).Draw(t, "adds")
+	return r
+})
 
 func drawCase(rt *rapid.T) Case {
 	c := Case{Workers: 1}
@@ -1059,22 +1230,21 @@ func drawCase(rt *rapid.T) Case {
 	}
 	c.FailFirst = rapid.Bool().Draw(rt, "failfirst")
 	// rapid prefers the first elements / small numbers: the common shapes come first
-	nr := rapid.SampledFrom([]int{3, 4, 5, 2, 6, 7, 8, 3, 4, 5, 2, 6, 7, 8, 4, 1}).Draw(rt, "nrules")
 	topKind := rapid.SampledFrom([]int{1, 2, 3, 1, 2, 3, 1, 2, 3, 0}).Draw(rt, "topkind")
-	for i := 0; i < nr; i++ {
+	minRules := 2
+	if rapid.IntRange(0, 15).Draw(rt, "single") == 15 {
+		minRules = 1
+	}
+	draws := rapid.SliceOfN(genRule, minRules, 8).Draw(rt, "rules")
+	for i, d := range draws {
 		// the first rule is on the root kind, the second on the deepest one
 		kind := 0
 		if i == 1 {
 			kind = topKind
 		} else if i > 1 {
-			kind = rapid.IntRange(0, topKind).Draw(rt, "kind")
+			kind = d.Kind % (topKind + 1)
 		}
-		c.Rules = append(c.Rules, RuleSpec{
-			Kind: kind,
-			Prio: rapid.IntRange(0, maxPrio).Draw(rt, "prio"),
-			Fail: rapid.IntRange(0, 3).Draw(rt, "fail") == 0,
-			Spin: rapid.IntRange(0, 2).Draw(rt, "spin"),
-		})
+		c.Rules = append(c.Rules, RuleSpec{Kind: kind, Prio: d.Prio, Fail: d.Fail, Spin: d.Spin})
 	}
 	by := rulesByKind(c.Rules)
 	var kinds []int
@@ -1083,7 +1253,7 @@ func drawCase(rt *rapid.T) Case {
 			kinds = append(kinds, k)
 		}
 	}
-	for i := range c.Rules {
+	for i, d := range draws {
 		r := &c.Rules[i]
 		// deeper kinds with / without a rule
 		var trig, non []int
@@ -1094,22 +1264,24 @@ func drawCase(rt *rapid.T) Case {
 				non = append(non, k)
 			}
 		}
-		na := rapid.IntRange(0, 4).Draw(rt, "nadds")
-		if na == 0 && len(trig) > 0 && rapid.IntRange(0, 3).Draw(rt, "leaf") < 3 {
-			na = rapid.IntRange(1, 4).Draw(rt, "nadds1")
-		}
-		for j := 0; j < na; j++ {
-			ad := Add{Prio: rapid.IntRange(0, maxPrio).Draw(rt, "aprio")}
-			if len(trig) > 0 && rapid.IntRange(0, 3).Draw(rt, "atrig") < 3 {
-				ad.Kind = rapid.SampledFrom(trig).Draw(rt, "akind")
+		pool := []int{0, 1, 2, 3, 4, 5}
+		for _, a := range d.Adds {
+			ad := Add{Prio: a.Prio}
+			if d.Spread {
+				k := a.Prio % len(pool)
+				ad.Prio = pool[k]
+				pool = append(pool[:k:k], pool[k+1:]...)
+			}
+			if len(trig) > 0 && a.Trig < 3 {
+				ad.Kind = trig[a.Pick%len(trig)]
 			} else {
-				ad.Kind = rapid.SampledFrom(non).Draw(rt, "anon")
+				ad.Kind = non[a.Pick%len(non)]
 			}
 			r.Adds = append(r.Adds, ad)
 		}
 	}
 	nroots := 1
-	if rapid.IntRange(0, 2).Draw(rt, "multiroot") == 0 {
+	if rapid.IntRange(0, 2).Draw(rt, "multiroot") == 2 {
 		nroots = rapid.IntRange(2, 3).Draw(rt, "nroots")
 	}
 	for i := 0; i < nroots; i++ {
